@@ -343,6 +343,8 @@ def exec_ops(case, ops, op_timeout=60, emit=None):
             try:
                 signal.alarm(op.get("timeout", op_timeout))
                 if kind == "synth":
+                    if case.get("continuous"):
+                        del built.cont_log[:]          # calls recorded by an earlier op that timed out or raised
                     with ir.quiet() as buf:
                         exps = sp.synthesize_trials(built.block, op["n"], _strategy(op["strategy"]))
                     signal.alarm(0)
